@@ -192,6 +192,31 @@ Theorem C17_loop_ends_after_stop : forall g ops pre c post,
 Proof. exact m_loop_end. Qed.
 Print Assumptions C17_loop_ends_after_stop.
 
+(* ---- probes: calls held inside the global centre *)
+
+(* A Subscribe / Unsubscribe of a probe centre that was held inside the global centre (between
+   the lookup of the name's list and the call on the centre object) has, once it returns, the
+   sequential outcome - registered / not registered - for every interleaving of operations of the
+   other centres (their subscriptions, last unsubscriptions, Clear, publications) in between *)
+Theorem C17_held_call_has_sequential_outcome : forall g ops t1 c n b t2 t3,
+  run g ops = t1 ++ VPark c n b :: t2 ++ VDone c :: t3 -> ~ In (VDone c) t2 ->
+  pair_mem c n (pr (view_of (t1 ++ VPark c n b :: t2 ++ [VDone c]))) = b /\
+  aget c (pp (view_of (t1 ++ VPark c n b :: t2 ++ [VDone c]))) = None.
+Proof. exact m_held_call. Qed.
+Print Assumptions C17_held_call_has_sequential_outcome.
+
+(* ... and a global publication reaches every registered probe whose registration is not in
+   flight (every copy that fits under the cap), and no unregistered one *)
+Theorem C17_probe_delivery : forall g ops pre n a k qlens post,
+  run g ops = pre ++ VProbe n a k qlens :: post ->
+  forall c, In c probe_centres -> held (view_of pre) c n = false ->
+    queue_of (view_of (pre ++ [VProbe n a k qlens])) c =
+    queue_of (view_of pre) c ++
+    repeat (n, a) (Z.to_nat (if pair_mem c n (pr (view_of pre))
+                             then Z.min QCAP (qlen (view_of pre) c + k) - qlen (view_of pre) c else 0)).
+Proof. exact m_probe. Qed.
+Print Assumptions C17_probe_delivery.
+
 (* ---- non-vacuity *)
 (* two listeners that unsubscribe each other: whoever map order visits first wins *)
 Definition ex1 : list op :=
@@ -339,4 +364,23 @@ Proof. vm_compute. reflexivity. Qed.
 Example C17_monitor_rejects_delivery_after_stop :
   holds_b [VOp; VSub 1 4 7 true [1]; VOp; VStart 4; VOp; VGPub 7 [1] 1 [0; 0; 0; 0; 1; 0]; VOp; VStop 4; VOp;
            VDeq 4 7 [1]; VBegin 1 4 7 [1]; VEnd 1; VLoopEnd 4] = false.
+Proof. vm_compute. reflexivity. Qed.
+
+(* probes: 7 is registered; the Subscribe of 6 is held inside the global centre while a
+   publication reaches 7 only and 7 leaves (the name now has no registered centre at all); once
+   the held call has returned 6 is registered and gets the next publication *)
+Example C17_example_held_subscribe :
+  run [] [OReg 7 1 true; OPark 6 1 true; OAct (AGPub 1 [0] 1); OReg 7 1 false; ORelease 6;
+          OAct (AGPub 1 [1] 1); OReg 6 1 false; OAct (AGPub 1 [2] 1)] =
+  [VOp; VReg 7 1; VOp; VPark 6 1 true; VOp; VGPub 1 [0] 1 [0; 0; 0; 0; 0; 0]; VProbe 1 [0] 1 [0; 1]; VOp;
+   VUnreg 7 1; VOp; VDone 6; VOp; VGPub 1 [1] 1 [0; 0; 0; 0; 0; 0]; VProbe 1 [1] 1 [1; 1]; VOp; VUnreg 6 1;
+   VOp; VGPub 1 [2] 1 [0; 0; 0; 0; 0; 0]].
+Proof. vm_compute. reflexivity. Qed.
+
+(* the monitor rejects the seeded defect C17-10 as it shows on the changed code: the last centre
+   leaving deleted the name's list while 6 was held; 6 ends up in the orphaned list and the
+   publication after its Subscribe returned does not reach it *)
+Example C17_monitor_rejects_orphaned_registration :
+  holds_b [VOp; VReg 7 1; VOp; VPark 6 1 true; VOp; VUnreg 7 1; VOp; VDone 6; VOp;
+           VGPub 1 [1] 1 [0; 0; 0; 0; 0; 0]; VProbe 1 [1] 1 [0; 0]] = false.
 Proof. vm_compute. reflexivity. Qed.
